@@ -42,7 +42,9 @@ ASSUMPTIONS = [
     "several statements share one HTTP request; every mismatch is re-executed as a single-statement request before it is reported",
 ]
 
-CONFIGS = [(n, ch) for n in (1, 2, 0) for ch in (False, True)]   # n = 0 -> server defaults
+# (n, chunked): n = 0 -> server defaults; chunked = False | True (chunk_size = n) | m (an int > 1: chunk_size = m, so that the
+# HTTP sender keeps m rows buffered while m batches of n rows pass)
+CONFIGS = [(n, ch) for n in (1, 2, 0) for ch in (False, True)] + [(1, 3)]
 QUICK_CONFIGS = [(1, False), (1, True), (2, True), (0, False)]
 PARS = [1, 0]                                                    # chunk_reader_parallel limit; 0 = default (cpu count)
 
@@ -53,7 +55,9 @@ def cfg_params(n, chunked):
         p["inner_chunk_size"] = str(n)
     if chunked:
         p["chunked"] = "true"
-        if n:
+        if chunked is not True:
+            p["chunk_size"] = str(int(chunked))
+        elif n:
             p["chunk_size"] = str(n)
     return p
 
@@ -154,7 +158,7 @@ def task(t):
 def _task(t):
     srv, di, layout, par, n, chunked = t
     ds = G["datasets"][di]
-    sts = G["stmts"]
+    sts = G["stmts"][di]
     exps = G["expected"][di]
     mst = mst_name(ds, family_of(layout))
     conn = Conn(G["urls"][srv])
@@ -218,10 +222,19 @@ def start_servers(scratch):
         st, js = s.query("create database %s" % DB, method="POST")
         if st != 200 or (js and any("error" in r for r in js.get("results", []))):
             raise blackbox.ToolError("create database failed on %s: %s %s" % (s.name, st, js))
-        # keep the layouts as written: no background compaction / out-of-order merge (best effort, answers must not depend on it)
-        s.ctrl("compen", switchon="false", allshards="true")
-        s.ctrl("merge", switchon="false", allshards="true")
+    freeze((a, b))
     return a, b
+
+
+def freeze(servers):
+    """Keep the layouts as written: no background compaction / out-of-order merge.  The value of `allshards` IS the switch
+    (engine/sysctrl.go: SetAllShardsCompactionSwitch(allshards)); the merge switch is global, the compaction switch only
+    reaches the shards that exist, so this is repeated after every load (new shards are born with compaction enabled)."""
+    for s in servers:
+        for mod in ("compen", "merge"):
+            st, body = s.ctrl(mod, allshards="false")
+            if st != 200 or b"success" not in body:
+                raise blackbox.ToolError("%s allshards=false on %s: %s %r" % (mod, s.name, st, body[:200]))
 
 
 def set_par(servers, par):
@@ -244,78 +257,69 @@ def write(s, lines):
         raise blackbox.ToolError("write on %s failed: %s %r" % (s.name, st, body[:300]))
 
 
-def barrier(s, ds, mst, nf, ng, timeout_s=60):
-    """Poll until the measurement returns exactly the written number of f and g values (DESIGN.md section 1)."""
+def barrier(s, ds, mst, want, timeout_s=60):
+    """Poll until the measurement returns exactly the written number of values of every field (DESIGN.md section 1).
+    want = {field: number of non-null values}."""
     t0 = time.time()
     got = None
+    q = 'select %s from "%s"' % (",".join(ds.fields), mst)
     while time.time() - t0 < timeout_s:
-        st, js = s.query('select f,g from "%s"' % mst, db=DB)
-        got = (0, 0)
+        st, js = s.query(q, db=DB)
+        got = {k: 0 for k in ds.fields}
         if st == 200 and js:
             try:
-                rows = [r for x in blackbox.Server.series(js) for r in (x[3] or [])]
-                cols = [x[2] for x in blackbox.Server.series(js)]
-                if cols:
-                    fi = cols[0].index("f") if "f" in cols[0] else None
-                    gi = cols[0].index("g") if "g" in cols[0] else None
-                    got = (sum(1 for r in rows if fi is not None and r[fi] is not None),
-                           sum(1 for r in rows if gi is not None and r[gi] is not None))
+                for x in blackbox.Server.series(js):
+                    for k in ds.fields:
+                        if k in x[2]:
+                            j = x[2].index(k)
+                            got[k] += sum(1 for r in (x[3] or []) if r[j] is not None)
             except blackbox.QueryError:
                 got = None
-        if got == (nf, ng):
+        if got == want:
             return
         time.sleep(0.05)
-    raise blackbox.ToolError("visibility barrier: %s on %s shows (f,g)=%s values, expected %s" % (mst, s.name, got, (nf, ng)))
+    raise blackbox.ToolError("visibility barrier: %s on %s shows %s values, expected %s" % (mst, s.name, got, want))
 
 
-def partial_counts(ds, lines):
-    nf = ng = 0
-    for l in lines:
-        for kv in l.split(" ")[1].split(","):
-            nf += kv.startswith("f=")
-            ng += kv.startswith("g=")
-    return nf, ng
+FAMILIES = ("a", "b", "c")
 
 
 def load_phase1(servers, dss):
     for s in servers:
         lines = []
         for ds in dss:
-            lines += ds.lines_all(mst_name(ds, "a"))
-            lines += ds.lines_late(mst_name(ds, "b"))[0]
-            if ds.has_seq():
-                lines += ds.lines_seq(mst_name(ds, "c"))[0]
+            for fam in FAMILIES:
+                if fam != "c" or ds.has_seq():
+                    lines += ds.lines(mst_name(ds, fam), ds.batches(fam)[0])
         write(s, lines)
     for s in servers:
         for ds in dss:
-            nf, ng = ds.nvalues()
-            barrier(s, ds, mst_name(ds, "a"), nf, ng)
-            first = ds.lines_late(mst_name(ds, "b"))[0]
-            barrier(s, ds, mst_name(ds, "b"), *partial_counts(ds, first))
-            if ds.has_seq():
-                barrier(s, ds, mst_name(ds, "c"), *partial_counts(ds, ds.lines_seq(mst_name(ds, "c"))[0]))
+            for fam in FAMILIES:
+                if fam != "c" or ds.has_seq():
+                    barrier(s, ds, mst_name(ds, fam), ds.counts(ds.batches(fam)[0]))
+    freeze(servers)
 
 
 def load_phase2(servers, dss):
     for s in servers:
         lines = []
         for ds in dss:
-            lines += ds.lines_late(mst_name(ds, "b"))[1]
-            if ds.has_seq():
-                lines += ds.lines_seq(mst_name(ds, "c"))[1]
+            for fam in ("b", "c"):
+                if fam != "c" or ds.has_seq():
+                    lines += ds.lines(mst_name(ds, fam), ds.batches(fam)[1])
         if lines:
             write(s, lines)
     for s in servers:
         for ds in dss:
-            nf, ng = ds.nvalues()
-            barrier(s, ds, mst_name(ds, "b"), nf, ng)
-            if ds.has_seq():
-                barrier(s, ds, mst_name(ds, "c"), nf, ng)
+            for fam in ("b", "c"):
+                if fam != "c" or ds.has_seq():
+                    barrier(s, ds, mst_name(ds, fam), ds.counts(*ds.batches(fam)))
+    freeze(servers)
 
 
-def precompute(dss, sts):
+def precompute(dss, stmts_of):
     expected, meta_skip = [], []
-    for ds in dss:
+    for ds, sts in zip(dss, stmts_of):
         row, skip = [], {}
         for i, st in enumerate(sts):
             if M.klass(st) == "ref":
@@ -356,12 +360,16 @@ def defect_model_kind(ds, st, layout, ans):
     agg = M.is_agg(st)
     late = layout in ("late", "late_flushed") and ds.split_point() is not None
     fprev = bool(st["w"]) and st["fill"] == "previous"
-    fieldpred = st["pred"] in ("F1", "F2", "TF")
+    fieldpred = M.is_field_pred(st)
+    selector = M.single_selector(st)
     if st["desc"] and fprev and not st["gbtag"] and fits(M.evaluate(ds, st, fill_prev_iteration_order=True)):
         return K_DESC_FILL
-    dsel = st["desc"] and st["sel"] in ("first", "last") and not st["w"]
+    dsel = st["desc"] and selector in ("first", "last") and not st["w"]
     if dsel and fits(M.evaluate(ds, st, swap_first_last=True)):
         return K_DESC_SEL
+    if st["desc"] and selector in ("first", "last") and st["w"] and st["fill"] != "previous" and \
+            fits(M.evaluate(ds, st, bucket_selector_any=True)):
+        return K_DESC_SEL          # the same positional first/last, inside a time bucket that holds several points of a series
     if fieldpred:
         if not agg and fits(M.evaluate(ds, st, keep_null_rows=True)):
             return K_NULLROW
@@ -376,7 +384,7 @@ def defect_model_kind(ds, st, layout, ans):
         return K_DESC_SEL
     if fprev and st["gbtag"] and fits(M.relaxed_fill_expectation(ds, st)):
         return K_FILL_TAGS
-    if st["sel"] == "last" and not st["w"] and layout != "memory" and fits(M.relaxed_selector_expectation(ds, st, any_row_time=True)):
+    if selector == "last" and not st["w"] and layout != "memory" and fits(M.relaxed_selector_expectation(ds, st, any_row_time=True)):
         return K_LAST_SEG
     return None
 
@@ -390,7 +398,7 @@ def meta_trigger_kind(ds, st, minority, major_canon=None, minor_canons=()):
         if st["gbtag"] and not M.rows_not_in_unlimited_answer(_uncanon(major_canon), ds, st) and \
                 not any(M.rows_not_in_unlimited_answer(_uncanon(c), ds, st) for c in minor_canons):
             return K_GLIMIT_SEL
-    if st["pred"] in ("F1", "F2", "TF") and ds.split_point() is not None and \
+    if M.is_field_pred(st) and ds.split_point() is not None and \
             all(x[0] in ("late", "late_flushed") for x in minority):
         return K_SPLIT
     return None
@@ -458,22 +466,33 @@ PHASES = [[l for l, (_, ph) in LAYOUTS.items() if ph == k] for k in range(3)]
 
 
 def do_run(tier, scratch, servers, t0):
-    dss = M.datasets(tier)
-    sts = M.statements(tier)
+    dsgroups = M.groups(tier)
+    fam_only = os.environ.get("VERIF_C08_FAMILY")          # experiments only: "typed" | "fg"
+    if fam_only:
+        dsgroups = [g for g in ([d for d in g if d.family == fam_only] for g in dsgroups) if g]
     seed = int(os.environ.get("VERIF_SEED", "0") or 0)
     if seed:  # rotates the order only
-        k = seed % len(dss)
-        dss = dss[k:] + dss[:k]
-    gsize = GROUP_SIZE[tier]
-    groups = [list(range(i, min(i + gsize, len(dss)))) for i in range(0, len(dss), gsize)]
+        k = seed % len(dsgroups)
+        dsgroups = dsgroups[k:] + dsgroups[:k]
+        dsgroups = [g[seed % len(g):] + g[:seed % len(g)] for g in dsgroups]
     if os.environ.get("VERIF_C08_GROUPS"):
-        groups = groups[:int(os.environ["VERIF_C08_GROUPS"])]
-    checklib.log("C08 %s: %d data sets in %d groups, %d statements" % (tier, len(dss), len(groups), len(sts)))
-    expected, meta_skip = precompute(dss, sts)
+        dsgroups = dsgroups[:int(os.environ["VERIF_C08_GROUPS"])]
+    dss, groups = [], []
+    for g in dsgroups:
+        groups.append(list(range(len(dss), len(dss) + len(g))))
+        dss += g
+    by_family = {}
+    for ds in dss:
+        if ds.family not in by_family:
+            by_family[ds.family] = M.statements_for(tier, ds)
+    stmts_of = [by_family[ds.family] for ds in dss]
+    checklib.log("C08 %s: %d data sets in %d groups; statements: %s" % (
+        tier, len(dss), len(groups), ", ".join("%s %d" % (k, len(v)) for k, v in sorted(by_family.items()))))
+    expected, meta_skip = precompute(dss, stmts_of)
     a, b = start_servers(scratch)
     servers += [a, b]
     names = ["p1", "p3"]
-    G.update(datasets=dss, stmts=sts, expected=expected, meta_skip=meta_skip, urls=[a.url, b.url], names=names)
+    G.update(datasets=dss, stmts=stmts_of, expected=expected, meta_skip=meta_skip, urls=[a.url, b.url], names=names)
     configs = CONFIGS if tier == "thorough" else QUICK_CONFIGS
     layouts = TIER_LAYOUTS[tier]
     deadline = time.time() + int(os.environ.get("VERIF_DEADLINE_S", DEADLINE[tier]))   # counted from the first request
@@ -524,7 +543,7 @@ def do_run(tier, scratch, servers, t0):
                     ndone = 0
                     for r in pool.imap_unordered(task, feed()):
                         if "tool_error" in r:
-                            raise blackbox.ToolError("%s (task %s)" % (r["tool_error"], r["task"]))
+                            raise blackbox.ToolError("%s (task %s)%s" % (r["tool_error"], r["task"], servers[r["task"][0]].diagnose()))
                         ndone += 1
                         srv, di, layout, par_, n, ch = r["task"]
                         x = (layout, names[srv], par_, n, ch)
@@ -574,7 +593,7 @@ def do_run(tier, scratch, servers, t0):
         return [{"layout": r[0], "server": r[1], "par": r[2], "n": r[3], "chunked": r[4]} for r in recs[:k]]
 
     for (di, i), recs in sorted(mism.items()):
-        ds, st = dss[di], sts[i]
+        ds, st = dss[di], stmts_of[di][i]
         exp = expected[di][i]
         bykind, rest = {}, []
         cache = {}
@@ -602,7 +621,7 @@ def do_run(tier, scratch, servers, t0):
             add(kind, "%s :: %s" % (M.shape(st, ds), ds.key()), detail, rp)
     for (di, i), by in sorted(meta.items()):
         if len(by) > 1:
-            ds, st = dss[di], sts[i]
+            ds, st = dss[di], stmts_of[di][i]
             groups_ = sorted(by.items(), key=lambda kv: (-len(kv[1]), kv[0]))
             major = groups_[0]
             recs = [x + ("differs from the majority answer", c, False) for c, xs in groups_[1:] for x in xs]
@@ -618,7 +637,7 @@ def do_run(tier, scratch, servers, t0):
     for di, ds in enumerate(dss):
         if di not in executed:
             continue
-        for i, st in enumerate(sts):
+        for i, st in enumerate(stmts_of[di]):
             e = expected[di][i]
             if e is not None:
                 if e:
@@ -627,9 +646,13 @@ def do_run(tier, scratch, servers, t0):
                 cs = meta.get((di, i))
                 if cs and any(c != "[]" for c in cs):
                     distinct.add(h64(ds.key(), M.shape(st, ds)))
-    counters.update({"data_sets": len(executed), "statements": len(sts),
-                     "statements_reference_class": sum(1 for s in sts if M.klass(s) == "ref"),
-                     "statements_config_invariance_only": sum(1 for s in sts if M.klass(s) == "meta"),
+    all_sts = [s for v in by_family.values() for s in v]
+    counters.update({"data_sets": len(executed), "statements": len(all_sts),
+                     "data_sets_typed_family": sum(1 for di in executed if dss[di].family == "typed"),
+                     "statements_typed_family": len(by_family.get("typed", [])),
+                     "max_rows_of_one_series": max([0] + [len(dss[di].series_rows(si)) for di in executed for si in range(3)]),
+                     "statements_reference_class": sum(1 for s in all_sts if M.klass(s) == "ref"),
+                     "statements_config_invariance_only": sum(1 for s in all_sts if M.klass(s) == "meta"),
                      "meta_pairs_skipped_for_ties": sum(1 for di in executed for v in meta_skip[di].values() if v),
                      "mismatching_pairs": len(mism), "tasks": sum(len(v) for v in executed.values())})
     for k, v in per_kind.items():
